@@ -297,14 +297,14 @@ def explore(tier, seed):
     # site is rewritten in ITS file and carried by one change entry of that file's changeset
     from . import c11a
 
-    r = c11a.explore_cached("sonar", "coarse", 1)
+    r = c11a.explore_cached("sonar", "line", 1)
     for h, detail in sorted(r["details"].items()):
         for sig, what in schedule_judge(detail):
             if sig in {v.signature for v in violations}:
                 continue
             if sig not in known_open:
                 drive.init_inproc()
-                again = [dict(schedule_judge(c11a.run_once("sonar", r["outcomes"][h], "coarse")[2])) for _ in range(2)]
+                again = [dict(schedule_judge(c11a.run_once("sonar", r["outcomes"][h], "line")[2])) for _ in range(2)]
                 if not all(sig in a for a in again):
                     divergence.append(sig)
                     continue
@@ -343,7 +343,7 @@ def replay(rp):
         from . import c11a
 
         drive.init_inproc()
-        found = schedule_judge(c11a.run_once("sonar", rp["choices"], "coarse")[2])
+        found = schedule_judge(c11a.run_once("sonar", rp["choices"], "line")[2])
         return (rp["sig"] not in {s for s, _ in found}), "\n".join(f"{s}: {d}" for s, d in found) or "each reported site rewritten and carried in its own file"
     found, info = eval_case(tuple(rp["case"]))
     return (rp["sig"] not in {s for s, _ in found}), "\n".join(f"{s}: {d}" for s, d in found) or f"sites rewritten == sites reported ({info})"
